@@ -2,7 +2,7 @@
    Property theorems only; proofs are in proofs/LexerProofs.v. *)
 From Coq Require Import List NArith Bool Arith.
 Import ListNotations.
-From PV Require Import Regex Base UnicodeTables LexTables PyRepr Lexer RegexLemmas LexerProofs.
+From PV Require Import Regex Base UnicodeTables LexTables PyRepr Lexer RegexLemmas LexerProofs PositionProofs.
 
 (* every iteration of the token() loop removes a non-empty prefix of the input *)
 Theorem C09_progress : forall n0 st rest items st' rest',
@@ -55,3 +55,28 @@ Example C09_example :
   exists items stf, raw_lex (S (length text)) (init_lexst (s2l "f.c")) text = (items, stf, true)
                     /\ has_crash items = false /\ length items = 6%nat.
 Proof. eexists; eexists; vm_compute; repeat split; reflexivity. Qed.
+
+(* position exactness: when the lexer's state agrees with the text consumed so far (PosInv), an
+   error-free _match_token call yields exactly one token, spelled by the consumed characters, whose
+   line is the current line and whose column is 1 + the number of characters since the last
+   newline of the consumed text; the consumed characters contain no newline and the state agrees
+   with the longer prefix afterwards *)
+Theorem C09_token_position : forall n0 st pre rest items st' rest',
+  PosInv pre st -> rest <> [] -> match_token n0 st rest = (items, st', rest') -> no_err items = true ->
+  exists p k, rest = p ++ rest' /\ ~ In 10%N p /\ PosInv (pre ++ p) st' /\ l_lineno st' = l_lineno st /\
+              items = [RTok k p (l_lineno st) (1 + lenN (last_line pre))%N (l_file st)].
+Proof. exact match_token_position. Qed.
+Print Assumptions C09_token_position.
+
+(* blanks, tabs and newlines produce nothing, keep the agreement, and a newline starts a new line *)
+Theorem C09_blank_newline_position : forall n0 st pre c rest items st' rest',
+  PosInv pre st -> (is_blank c = true \/ c = 10%N) -> lex_iter n0 st (c :: rest) = (items, st', rest') ->
+  items = [] /\ rest' = rest /\ PosInv (pre ++ [c]) st' /\
+  l_lineno st' = (if N.eqb c 10 then (l_lineno st + 1)%N else l_lineno st).
+Proof. exact blank_newline_position. Qed.
+Print Assumptions C09_blank_newline_position.
+
+(* no token rule and no fixed token can contain a newline (table theorems) *)
+Theorem C09_token_rules_no_newline : forallb (fun r => negb (is_token_rule r) || no_chr 10%N (rre r)) regex_rules = true.
+Proof. exact token_rules_no_newline. Qed.
+Print Assumptions C09_token_rules_no_newline.
